@@ -18,7 +18,7 @@ def assigned_names(lines):
     return out
 
 
-def inject(rng, text):
+def inject(rng, text, force_kind=None):
     """Returns (new text, expected kind, expected name, fault class) or None."""
     lines = lines_of(text)
     wires = [m.group(1) for l in lines for m in [re.match(r"^wire (\w+) :", l)] if m]
@@ -36,6 +36,9 @@ def inject(rng, text):
                        "read_undeclared", "assign_undeclared", "assign_bank_out", "assign_builtin_out", "assign_const",
                        "assign_preamble_const", "const_reads_wire", "default_reads_wire", "partial_disabled_ok",
                        "assign_twice_in_chain", "assign_twice_in_chain", "bad_bank_name", "partial_shared", "partial_const_enable", "partial_const_enable"])
+
+    if force_kind is not None:
+        kind = force_kind
 
     def drop_assign(name):
         out = []
@@ -108,6 +111,15 @@ def inject(rng, text):
         en = rng.choice(CONST_ENABLES)
         new = [l if not l.startswith("mem_writebit = ") else "mem_writebit = %s;" % en for l in new]
         return new + ["const EN0 = 0, EN2 = 2;"], "MODEL", None, kind
+    if kind == "partial_after_disabled" and not (set(assigned) & {"mem_addr", "mem_readbit", "mem_input", "mem_writebit", "reg_dstE", "reg_inputE", "reg_dstM", "reg_inputM"}):
+        # one memory port legally left incomplete (its enable is the constant 0) AND another component given
+        # only part of its inputs: the second one is still a fault, wherever it stands in the table
+        off = rng.choice([["mem_readbit = 0;"], ["mem_readbit = FALSE;"], ["mem_writebit = 0;", "mem_input = 1;"], ["mem_readbit = 0;", "mem_writebit = (1 == 2);"]])
+        cands = [(["reg_dstE = REG_RAX;"], "reg_dstE"), (["reg_inputE = 42;"], "reg_inputE"), (["reg_inputM = 42;"], "reg_inputM"), (["reg_dstM = REG_RCX;"], "reg_dstM")]
+        if not any(l.startswith("mem_writebit") for l in off):
+            cands += [(["mem_input = 0x1234;"], "mem_input")]
+        part, name = rng.choice(cands)
+        return add(*(off + part)), "PartialFixedInput", name, kind
     if kind == "redecl_wire" and wires:
         w = rng.choice(wires)
         return add("wire %s : %d;" % (w, rng.choice([1, 8, 64]))), "RedeclaredWire", w, kind
@@ -203,7 +215,11 @@ CONST_ENABLES = ["0", "1", "2", "1 - 1", "EN0", "EN2", "EN2 - 2", "(0[0..128] ..
                  "(0[0..128] .. 0[0..1])[128..129]", "1 / 0", "(1 / 0) == 0", "(0 / 0) > 1", "1 << 200", "((1 << 127) >> 127)", "(1 << 128) == 0",
                  "0b0 && 1", "!1", "!0", "(~0) == 0", "[ 1 : 0; ]", "[ 0 : 1; 1 : 0; ]", "[ 0 : 1; ]", "1 in { 1, 2 }", "3 in { 1, 2 }",
                  "(0b1 .. 0b0)[0..1]", "(0b1 .. 0b0)[1..2]", "(0xffffffffffffffffffffffffffffffff + 1) == 0", "(0 - 1) == 0",
-                 "(0b1 .. 0b0) == 2", "0b10", "(2)[1..2]", "(2)[0..1]", "-1", "(0 * 5)", "1 && 0", "0 || 0", "4 > 5", "5 >= 5"]
+                 "(0b1 .. 0b0) == 2", "0b10", "(2)[1..2]", "(2)[0..1]", "-1", "(0 * 5)", "1 && 0", "0 || 0", "4 > 5", "5 >= 5",
+                 # expressions whose evaluation itself fails or that no width rule admits
+                 "(1 .. 0)", "(EN2 .. 0b1)[0..1]", "(0x3 .. 0b01) == 13", "(0b1 .. 1) == 3", "(0 .. 0) == 0", "nosuchname9", "nosuchname9 == 0",
+                 "(0b1)[3..1] == 0", "(0b11)[0..5] == 3", "(0b11)[2..2]", "0b11 && 1", "(0b11 == 0b1)", "[ 0 : 1; ] == 0", "[ 1 : 0b1; 1 : 0b11; ]",
+                 "1 in { 0b11, 0b1 }", "(1 / (EN0 - 0))", "((1 .. 0) == 2) && 0"]
 
 
 def check(report, tier, seed):
@@ -222,6 +238,9 @@ def check(report, tier, seed):
             expect[cid] = (None, None)
             continue
         r = inject(rng, base)
+        if rng.random() < 0.06:
+            base2 = gen.ProgGen(rng, n_wires=rng.randint(1, 6), depth=2, allow_div=False, use_regfile=False, use_mem=False).build()
+            r = inject(rng, base2, force_kind="partial_after_disabled") or r
         if r is None:
             continue
         new, kind, name, cls = r
@@ -252,8 +271,8 @@ def check(report, tier, seed):
     report.coverage["evaluations"] = len(cases)
     report.coverage["distinct_nontrivial"] = len(set(c["hcl"] for c in cases.values() if c["fault"] != "none"))
     report.coverage["rule"] = ("a correct random program (1-12, thorough up to 40 wires, banks, register file, memory) with exactly one injected driver fault "
-                               "of a known kind on a known name (25 fault classes incl. a write port without data whose enable is one of 40 constant expressions (over-wide concatenations, division by zero, huge shifts; judged by the model only), a write port left with only the address it shares with the complete read port, malformed bank names, a name repeated within one chained assignment, over plain wires, constants incl. preamble ones, bank inputs/outputs, "
+                               "of a known kind on a known name (26 fault classes incl. a partial component next to a port switched off by a constant-0 enable, a write port without data whose enable is one of 40 constant expressions (over-wide concatenations, division by zero, huge shifts; judged by the model only), a write port left with only the address it shares with the complete read port, malformed bank names, a name repeated within one chained assignment, over plain wires, constants incl. preamble ones, bank inputs/outputs, "
                                "stall/bubble, built-in inputs/outputs), or none; oracle 1: rejected with a diagnostic of that kind naming that wire / accepted "
                                "when fault-free; oracle 2: verdict, diagnostic multiset and compiled program equal the model's build_program")
     report.coverage["distribution"] = dict(stats, **{"fault_" + k2: v2 for k2, v2 in by.items()})
-    report.coverage["samples"] = [cases["n0"]["hcl"][:500], cases["n1"]["hcl"][:500]]
+    report.coverage["samples"] = [c["hcl"][:500] for c in list(cases.values())[:2]]
